@@ -109,8 +109,10 @@ def handle (args : List String) : String :=
   | ["wenum", name] => Id.run do
       let some c := findCode name | return "bad-op"
       if !allOk c.n c.encode then return "bad-op"
-      let r := weightEnum c
-      return s!"{countH c.encode} " ++ ";".intercalate (r.map fun ab => s!"{ab.1},{ab.2}")
+      -- entry 0: the identity operator (left out by the implementation), then weights 1..n
+      let cw := codewordFns c
+      let r := enumTerm GInt.I c.n cw MP.one :: weightEnum GInt.I c.n cw
+      return s!"{countH c.encode} " ++ ";".intercalate (r.map fun ab => s!"{ab.1.re},{ab.2.re}")
   | ["errlist", n, d] => Id.run do
       let some n := n.toNat? | return "bad-op"
       let some d := d.toNat? | return "bad-op"
@@ -124,6 +126,30 @@ def handle (args : List String) : String :=
       if q = 0 then return "bad-op"
       if p = 0 then return "error:assert"
       return ";".intercalate ((asymErrorSet n d p q).map (sparseStr n))
+  | ["asymf", n, d, bits] => Id.run do
+      -- weight_z given as the bit pattern of a binary64 number; the bound is computed as the implementation does
+      let some n := n.toNat? | return "bad-op"
+      let some d := d.toNat? | return "bad-op"
+      let some bits := bits.toNat? | return "bad-op"
+      if bits ≥ 2 ^ 63 || bits / 2 ^ 52 ≥ 2047 then return "bad-op"
+      if bits = 0 then return "error:assert"
+      return ";".intercalate ((asymErrorSetF n d bits).map (sparseStr n))
+  | ["fceil", a, bits] => Id.run do
+      -- int(np.ceil(a / w)) as computed in binary64, and the exact ceiling of a / w
+      let some a := a.toNat? | return "bad-op"
+      let some bits := bits.toNat? | return "bad-op"
+      if bits = 0 || bits ≥ 2 ^ 63 || bits / 2 ^ 52 ≥ 2047 then return "bad-op"
+      let q : Rat := ((a : Int) : Rat) / ratOfFloatBits bits
+      return s!"{fceilDiv a bits} {(ratCeil q).toNat} {QI.ratStr (f64Round q)}"
+  | ["klloss", e, k, entries] => Id.run do
+      -- inner_product of shape (E, K, K) with Gaussian-integer entries, row-major `re,im;re,im;…`
+      let some e := e.toNat? | return "bad-op"
+      let some k := k.toNat? | return "bad-op"
+      let some l := parseGIntList? entries | return "bad-op"
+      if l.length ≠ e * k * k || k = 0 then return "bad-op"
+      let arr := l.toArray
+      let M : Nat → Nat → Nat → QI := fun x a b => QI.ofGInt (arr.getD (x * k * k + a * k + b) 0)
+      return QI.ratStr (klLossL2 e k M) ++ " " ++ ",".intercalate ((klLossL1Radicands e k M).map QI.ratStr)
   | ["run", n, idx, gates] => Id.run do
       -- the state-vector model on an arbitrary gate list, from the basis state with flat index idx
       let some n := n.toNat? | return "bad-op"
